@@ -41,21 +41,44 @@ type ccase struct {
 	mk       func() codec.Codec
 	lossless bool
 	symbolic bool // frame bytes symbolic (cheap coders); otherwise concrete, distinct frames
+	max8     bool // syntax defined for 8-bit samples only
 }
 
 var cases = []ccase{
-	{"rle", func() codec.Codec { return rle.NewRLECodec() }, true, true},
-	{"jpeg-lossless-70", func() codec.Codec { return jll.NewLosslessCodec(4) }, true, false},
-	{"jpeg-lossless-sv1", func() codec.Codec { return lossless14sv1.NewLosslessSV1Codec() }, true, false},
-	{"jpeg-baseline", func() codec.Codec { return baseline.NewBaselineCodec(90) }, false, false},
-	{"jpegls-lossless", func() codec.Codec { return jlsll.NewJPEGLSLosslessCodec() }, true, false},
-	{"jpegls-near", func() codec.Codec { return jlsnl.NewJPEGLSNearLosslessCodec(2) }, false, false},
-	{"j2k-lossless", func() codec.Codec { return j2kll.NewCodec() }, true, false},
-	{"htj2k-lossless", func() codec.Codec { return htj2k.NewLosslessCodec() }, true, false},
+	{"rle", func() codec.Codec { return rle.NewRLECodec() }, true, true, false},
+	{"jpeg-lossless-70", func() codec.Codec { return jll.NewLosslessCodec(4) }, true, false, false},
+	{"jpeg-lossless-sv1", func() codec.Codec { return lossless14sv1.NewLosslessSV1Codec() }, true, false, false},
+	{"jpeg-baseline", func() codec.Codec { return baseline.NewBaselineCodec(90) }, false, false, true},
+	{"jpegls-lossless", func() codec.Codec { return jlsll.NewJPEGLSLosslessCodec() }, true, false, false},
+	{"jpegls-near", func() codec.Codec { return jlsnl.NewJPEGLSNearLosslessCodec(2) }, false, false, false},
+	{"j2k-lossless", func() codec.Codec { return j2kll.NewCodec() }, true, false, false},
+	{"htj2k-lossless", func() codec.Codec { return htj2k.NewLosslessCodec() }, true, false, false},
 }
 
-func info22() *imagetypes.FrameInfo {
-	return &imagetypes.FrameInfo{Width: 2, Height: 2, BitsAllocated: 8, BitsStored: 8, HighBit: 7, SamplesPerPixel: 1, PhotometricInterpretation: "MONOCHROME2"}
+func info22(ba, bs int) *imagetypes.FrameInfo {
+	return &imagetypes.FrameInfo{Width: 2, Height: 2, BitsAllocated: uint16(ba), BitsStored: uint16(bs), HighBit: uint16(bs - 1), SamplesPerPixel: 1, PhotometricInterpretation: "MONOCHROME2"}
+}
+
+// formats: BitsAllocated/BitsStored of the frames under test, and the format
+// of the unrelated image the same codec object handled before (history).
+var formats = [][4]int{{8, 8, 8, 6}, {16, 12, 16, 16}, {16, 16, 16, 12}, {16, 8, 16, 16}}
+
+// sample i of frame f in a format with bs stored bits (little endian)
+func fillFrame(ba, bs, f int) []byte {
+	vals := []int{10 + 60*f, 200 - 30*f, 7 * (f + 1), 90 + f}
+	if bs > 8 {
+		vals = []int{1<<(bs-1) + 17*f, (1 << bs) - 1 - f, 0x0101 * (f + 1), 3 + f}
+	}
+	mask := (1 << bs) - 1
+	out := []byte{}
+	for _, v := range vals {
+		v &= mask
+		out = append(out, byte(v))
+		if ba == 16 {
+			out = append(out, byte(v>>8))
+		}
+	}
+	return out
 }
 
 // VerifC10Wrapper: frames map 1:1 and in order; frame i of a multi-frame call
@@ -68,14 +91,19 @@ func info22() *imagetypes.FrameInfo {
 func VerifC10Wrapper() {
 	cc := cases[vrt.Choice("codec", 0, len(cases)-1)]
 	F := vrt.Param("frames", 2)
-	info := info22()
+	fm := formats[vrt.Choice("format", 0, len(formats)-1)]
+	if cc.max8 && fm[1] > 8 {
+		return // syntax defined for at most 8 stored bits
+	}
+	info := info22(fm[0], fm[1])
+	flen := 4 * fm[0] / 8
 	frames := make([][]byte, F)
 	copies := make([][]byte, F)
 	for i := range frames {
-		if cc.symbolic {
-			frames[i] = vrt.Bytes("px", 4)
+		if cc.symbolic && fm[0] == 8 {
+			frames[i] = vrt.Bytes("px", flen)
 		} else {
-			frames[i] = []byte{byte(10 + 60*i), byte(200 - 30*i), byte(7 * (i + 1)), byte(90 + i)}
+			frames[i] = fillFrame(fm[0], fm[1], i)
 		}
 		copies[i] = append([]byte{}, frames[i]...)
 		vrt.Tag(frames[i], "caller-buffer")
@@ -87,6 +115,23 @@ func VerifC10Wrapper() {
 		params = c.GetDefaultParameters() // one shared, already valid object (as a shared Transcoder passes)
 		vrt.Tag(params, "shared-param")
 	}
+	if vrt.Choice("history", 0, 1) == 1 {
+		// the same codec object first handles an unrelated image of the same
+		// geometry and container but another precision
+		hbs := fm[3]
+		if cc.max8 && hbs > 8 {
+			hbs = 7
+		}
+		hinfo := info22(fm[2], hbs)
+		hout := &pd{info: hinfo}
+		herr := c.Encode(&pd{info: hinfo, frames: [][]byte{fillFrame(fm[2], hbs, 5)}}, hout, params)
+		vrt.Assert(herr == nil && len(hout.frames) == 1, "C10 earlier call on the same codec object succeeds")
+		if herr == nil && len(hout.frames) == 1 {
+			hdec := &pd{info: hinfo}
+			herr = c.Decode(&pd{info: hinfo, frames: hout.frames}, hdec, params)
+			vrt.Assert(herr == nil, "C10 earlier decode on the same codec object succeeds")
+		}
+	}
 	in := &pd{info: info, frames: frames}
 	out := &pd{info: info}
 	err := c.Encode(in, out, params)
@@ -97,10 +142,15 @@ func VerifC10Wrapper() {
 	vrt.Assert(len(out.frames) == F, "C10 one encoded frame per source frame")
 	for i := 0; i < F; i++ {
 		single := &pd{info: info}
-		e2 := cc.mk().Encode(&pd{info: info, frames: [][]byte{copies[i]}}, single, nil)
+		fresh := cc.mk()
+		var fp codec.Parameters
+		if params != nil {
+			fp = fresh.GetDefaultParameters()
+		}
+		e2 := fresh.Encode(&pd{info: info, frames: [][]byte{copies[i]}}, single, fp)
 		vrt.Assert(e2 == nil && len(single.frames) == 1, "C10 single-frame encode succeeds")
-		if params == nil {
-			vrt.Assert(bytes.Equal(out.frames[i], single.frames[0]), "C10 encoded frame i depends only on source frame i (equals a fresh codec's output for that frame alone)")
+		if e2 == nil && len(single.frames) == 1 {
+			vrt.Assert(bytes.Equal(out.frames[i], single.frames[0]), "C10 encoded frame i depends only on source frame i, the frame description and the parameters (equals a fresh codec's output for that frame alone, whatever the codec object did before)")
 		}
 	}
 	again := &pd{info: info}
@@ -114,7 +164,7 @@ func VerifC10Wrapper() {
 	}
 	vrt.Assert(len(dec.frames) == F, "C10 one decoded frame per encoded frame")
 	for i := 0; i < F; i++ {
-		vrt.Assert(len(dec.frames[i]) == 4, "C10 decoded frame has Rows x Columns x SamplesPerPixel x ceil(BitsAllocated/8) bytes")
+		vrt.Assert(len(dec.frames[i]) == flen, "C10 decoded frame has Rows x Columns x SamplesPerPixel x ceil(BitsAllocated/8) bytes")
 		if cc.lossless {
 			vrt.Assert(bytes.Equal(dec.frames[i], copies[i]), "C10 lossless syntax: decoded frame equals the source frame")
 		}
